@@ -428,7 +428,7 @@ class Interp:
                 return Ptr(a.r, simp(z3.If(c, bv(a.off, 64), bv(b.off, 64))))
             return MuxPtr(c, a, b)
         if isinstance(a, Pack) or isinstance(b, Pack):
-            if isinstance(a, Pack) and isinstance(b, Pack) and [n for _, n in a.parts] == [n for _, n in b.parts]:
+            if isinstance(a, Pack) and isinstance(b, Pack) and [n for _, n in a.parts] == [n for _, n in b.parts] and not any(isinstance(x, Sl) for x, _ in a.parts + b.parts):
                 return Pack([(s.ite(c, x, y), n) for (x, n), (y, _) in zip(a.parts, b.parts)])
             w = 8 * (a.nbytes() if isinstance(a, Pack) else b.nbytes())
             a = s.as_int(a, w); b = s.as_int(b, w)
